@@ -69,7 +69,13 @@ def model_validator(*, mode):
     return deco
 
 
+_CONFIG_KEYS = {"frozen", "str_strip_whitespace", "str_to_lower", "str_to_upper"}
+
+
 def ConfigDict(**kw):
+    unknown = set(kw) - _CONFIG_KEYS
+    if unknown:
+        raise Unsupported(f"pydantic ConfigDict option(s) {sorted(unknown)} are not modelled by the BaseModel stub")
     return dict(kw)
 
 
@@ -344,6 +350,13 @@ def _coerce(cls, name, a, v, done, context):
     if a == "str":
         if not sc.is_strlike(v):
             raise ValidationError(f"{name}: not a str")
+        cfg = getattr(cls, "model_config", None) or {}
+        if cfg.get("str_strip_whitespace"):
+            v = v.strip()
+        if cfg.get("str_to_lower"):
+            v = v.lower()
+        if cfg.get("str_to_upper"):
+            v = v.upper()
         return v
     if a == "bool":
         if isinstance(v, (bool, sc.SymBool)):
@@ -717,6 +730,10 @@ def _jsonify(o, sort_keys=False):
 
 def json_dumps(obj, **kw):
     USED.add("json")
+    if isinstance(obj, str):
+        return _real_json.dumps(obj, **kw)
+    if isinstance(obj, SymStr):     # used as text (e.g. pasted into a larger document), not read back with json.loads
+        return sc.sym_json_string(obj, kw.get("ensure_ascii", True))
     return JsonText(_jsonify(obj, kw.get("sort_keys", False)))
 
 
@@ -1000,7 +1017,52 @@ def _real_is_valid_uri():
 
 RDFLIB = _mk_module("rdflib", Graph=Graph, URIRef=URIRef, OWL=_OWL)
 RDFLIB_TERM = _mk_module("rdflib.term", URIRef=URIRef)
-RDFLIB_CUSTOM = _mk_module("rdflib_custom", MappingServiceSPARQLProcessor=object)
+
+
+class CompValue(dict):
+    """rdflib.plugins.sparql.parserutils.CompValue as far as curies' own code uses it: a named node whose children are
+    reachable as attributes, with update() and values() of the underlying ordered mapping."""
+
+    def __init__(self, name, **values):
+        USED.add("rdflib.CompValue")
+        dict.__init__(self)
+        object.__setattr__(self, "name", name)
+        dict.update(self, values)
+
+    def __getattr__(self, a):
+        if a in ("__deepcopy__",):
+            raise AttributeError(a)
+        try:
+            return self[a]
+        except KeyError:
+            raise AttributeError(a) from None
+
+    def __setattr__(self, a, v):
+        self[a] = v
+
+    __hash__ = object.__hash__
+
+    def __eq__(self, o):
+        return self is o
+
+
+def _sparql_unmodelled(*a, **k):
+    raise Unsupported("rdflib SPARQL parsing / evaluation is not modelled")
+
+
+class _SPARQLProcessor:
+    def __init__(self, graph):
+        self.graph = graph
+
+
+SPARQL_STUBS = {
+    "rdflib.plugins.sparql.algebra": _mk_module("rdflib.plugins.sparql.algebra", translateQuery=_sparql_unmodelled),
+    "rdflib.plugins.sparql.evaluate": _mk_module("rdflib.plugins.sparql.evaluate", evalQuery=_sparql_unmodelled),
+    "rdflib.plugins.sparql.parser": _mk_module("rdflib.plugins.sparql.parser", parseQuery=_sparql_unmodelled),
+    "rdflib.plugins.sparql.parserutils": _mk_module("rdflib.plugins.sparql.parserutils", CompValue=CompValue),
+    "rdflib.plugins.sparql.processor": _mk_module("rdflib.plugins.sparql.processor", SPARQLProcessor=_SPARQLProcessor),
+    "rdflib.plugins.sparql.sparql": _mk_module("rdflib.plugins.sparql.sparql", Query=type("Query", (), {})),
+}
 
 
 def _rdflib_term_getattr(name):
@@ -1012,7 +1074,65 @@ def _rdflib_term_getattr(name):
 RDFLIB_TERM.__getattr__ = _rdflib_term_getattr
 
 
+# ------------------------------------------------------------------------------- functools
+import functools as _real_functools  # noqa: E402
+
+
+def _key_eq(a, b):
+    """Equality of two memo keys as functools sees it (== and hash), decided symbolically for proxies."""
+    from .core import is_strlike, sym_eq
+    if isinstance(a, tuple) and isinstance(b, tuple):
+        return len(a) == len(b) and all(_key_eq(x, y) for x, y in zip(a, b))
+    if is_strlike(a) or is_strlike(b):
+        return is_strlike(a) and is_strlike(b) and bool(sym_eq(a, b))
+    return bool(a == b)
+
+
+def sym_lru_cache(maxsize=128, typed=False):
+    """functools.lru_cache with its real semantics (least-recently-used eviction, exceptions are not remembered,
+    cache_clear), the key comparison being a symbolic equality.  Tables of module-level functions are emptied at the
+    start of every explored path."""
+    if callable(maxsize) and not isinstance(maxsize, int):
+        return sym_lru_cache(128)(maxsize)
+
+    def deco(fn):
+        USED.add("functools.lru_cache")
+        memo = []       # [(key, result)], least recently used first
+
+        def wrapper(*a, **k):
+            key = (tuple(a), tuple(sorted(k.items())))
+            for idx in range(len(memo)):
+                if _key_eq(memo[idx][0], key):
+                    memo.append(memo.pop(idx))
+                    return memo[-1][1]
+            res = fn(*a, **k)
+            if maxsize is None or maxsize > 0:
+                memo.append((key, res))
+                if maxsize is not None and len(memo) > maxsize:
+                    memo.pop(0)
+            return res
+        wrapper.cache_clear = memo.clear
+        wrapper.cache_info = lambda: (0, 0, maxsize, len(memo))
+        wrapper.cache_parameters = lambda: dict(maxsize=maxsize, typed=typed)
+        wrapper.__wrapped__ = fn
+        wrapper.__name__ = getattr(fn, "__name__", "cached")
+        wrapper.__doc__ = getattr(fn, "__doc__", None)
+        if isinstance(fn, types.FunctionType) and "<locals>" not in fn.__qualname__:
+            from .core import PATH_RESET    # a table that outlives the harness run (module- or class-level function)
+            PATH_RESET.append(memo.clear)
+        return wrapper
+    return deco
+
+
+FUNCTOOLS = _mk_module("functools", lru_cache=sym_lru_cache, cache=sym_lru_cache(None))
+for _n in dir(_real_functools):
+    if not hasattr(FUNCTOOLS, _n):
+        setattr(FUNCTOOLS, _n, getattr(_real_functools, _n))
+
+
 STUBS = {
+    **SPARQL_STUBS,
+    "functools": FUNCTOOLS,
     "csv": CSV, "pathlib": PATHLIB, "json": JSON, "json.decoder": JSON, "pydantic": PYDANTIC,
     "pydantic_core": PYDANTIC_CORE, "pytrie": PYTRIE, "collections": COLLECTIONS, "flask": FLASK, "fastapi": FASTAPI,
     "fastapi.responses": FASTAPI_RESPONSES, "rdflib": RDFLIB, "rdflib.term": RDFLIB_TERM,
